@@ -188,7 +188,13 @@ impl<W: Write> WriteBox<&mut W> for TrunBox {
         if let Some(v) = self.first_sample_flags {
             writer.write_u32::<BigEndian>(v)?;
         }
-        if self.sample_count != self.sample_sizes.len() as u32 {
+        // every per-sample table that the flags announce must hold one value per sample
+        let count = self.sample_count as usize;
+        if (TrunBox::FLAG_SAMPLE_DURATION & self.flags > 0 && self.sample_durations.len() != count)
+            || (TrunBox::FLAG_SAMPLE_SIZE & self.flags > 0 && self.sample_sizes.len() != count)
+            || (TrunBox::FLAG_SAMPLE_FLAGS & self.flags > 0 && self.sample_flags.len() != count)
+            || (TrunBox::FLAG_SAMPLE_CTS & self.flags > 0 && self.sample_cts.len() != count)
+        {
             return Err(Error::InvalidData("sample count out of sync"));
         }
         for i in 0..self.sample_count as usize {
